@@ -7,12 +7,15 @@ EXTENDS Outcome
 Trace == ndJsonDeserialize("trace.ndjson")
 VARIABLE l
 TraceInit == l = 1
+\* TLC judges every event; a rejected event is printed and the trace goes on, so that one run judges all of them
+\* (a known finding early in the trace must not keep later events from being judged)
+Ok(e) ==
+  CASE e.kind = "matrix"  -> e.class # "fatal" /\ e.class \in Allowed(e.state, e.op)
+    [] e.kind = "nofatal" -> e.class # "fatal"
+    [] e.kind = "load"    -> e.class # "fatal" /\ (e.class = "ok" => e.rectangular)
 TraceNext ==
   /\ l <= Len(Trace)
   /\ l' = l + 1
-  /\ LET e == Trace[l] IN
-       \/ e.kind = "matrix" /\ ((e.class # "fatal" /\ e.class \in Allowed(e.state, e.op)) = TRUE)
-       \/ e.kind = "nofatal" /\ ((e.class # "fatal") = TRUE)
-       \/ e.kind = "load" /\ ((e.class # "fatal" /\ (e.class = "ok" => e.rectangular)) = TRUE)
+  /\ IF Ok(Trace[l]) THEN TRUE ELSE PrintT(<<"TRACE", ToJson([reject |-> l])>>)
 TraceAccepted == TLCGet("stats").diameter - 1 = Len(Trace)
 =============================================================================
